@@ -161,14 +161,15 @@ Fixpoint rel (st : bool) (v w : pyval) {struct v} : bool :=
                 | _, _ => false
                 end) kvs kvs'
          | KCounter, KCounter =>
-             (* Counter.__eq__ (3.10+): all(self[e] == other[e] for c in (self, other) for e in c), a missing
-                count is 0 (keys are pairwise distinct, so "the" item with an equal key is unique) *)
-             forallb (fun kv =>
-                        existsb (fun kv' => rel st (fst kv) (fst kv') && rel st (snd kv) (snd kv')) kvs'
-                        || (is_zero (snd kv) && negb (existsb (fun kv' => rel st (fst kv) (fst kv')) kvs'))) kvs
-             && forallb (fun kv' =>
-                           existsb (fun kv => rel st (fst kv) (fst kv') && rel st (snd kv) (snd kv')) kvs
-                           || (is_zero (snd kv') && negb (existsb (fun kv => rel st (fst kv) (fst kv')) kvs))) kvs'
+             (* Counter.__eq__ (3.10+): all(self[e] == other[e] for c in (self, other) for e in c) where a missing
+                count is 0 - i.e. the two Counters agree as dicts once their zero counts are dropped.  Written as
+                dict.__eq__ (same size, every item found) on the items with a non-zero count. *)
+             Nat.eqb (length (filter (fun kv => negb (is_zero (snd kv))) kvs))
+                     (length (filter (fun kv => negb (is_zero (snd kv))) kvs'))
+             && forallb (fun kv =>
+                           is_zero (snd kv)
+                           || existsb (fun kv' => negb (is_zero (snd kv'))
+                                                  && (rel st (fst kv) (fst kv') && rel st (snd kv) (snd kv'))) kvs') kvs
          | _, _ =>                                       (* dict.__eq__: same size, every item found *)
              Nat.eqb (length kvs) (length kvs')
              && forallb (fun kv => existsb (fun kv' => rel st (fst kv) (fst kv') && rel st (snd kv) (snd kv')) kvs') kvs
